@@ -163,6 +163,12 @@ func exec1(op string) string {
 				n -= k
 			}
 			toks = append(toks, res)
+		case t == "h3":
+			// END_STREAM with 10 unread octets buffered, then more DATA: WINDOW_UPDATE + RST_STREAM + the
+			// credit for the discarded octets = 3 control frames from one received frame
+			id, ok := open(-1, false)
+			ok = ok && cl.Send(h2c33.Data(id, 10, -1, true))
+			toks = append(toks, alive(ok && cl.Send(h2c33.Data(id, 7, -1, false))))
 		case t == "pd":
 			id, ok := open(-1, false)
 			toks = append(toks, alive(ok && cl.Send(h2c33.Data(id, 3, 5, false))))
@@ -220,9 +226,9 @@ func gen(r *vh.Rand) string {
 	elic := func() {
 		switch r.Intn(5) {
 		case 0:
-			add("dc%d:%d", 1+2*r.Intn(50), r.Intn(3))
+			add("dc%d:%d", 1001+2*r.Intn(50), r.Intn(3))
 		case 1:
-			add("wz%d", 1+2*r.Intn(50))
+			add("wz%d", 1001+2*r.Intn(50))
 		case 2:
 			add("st")
 		default:
@@ -234,7 +240,10 @@ func gen(r *vh.Rand) string {
 		add("ck%d", []int{1, 2, 3, 8, 9, 10, 17}[r.Intn(7)])
 	}
 	serr := func() int {
-		switch r.Intn(7) {
+		switch r.Intn(8) {
+		case 7:
+			add("h3")
+			return 3
 		case 6:
 			add("pd")
 			return 1
@@ -252,10 +261,10 @@ func gen(r *vh.Rand) string {
 			add("hd%d", ln)
 			return 1 + ln
 		case 4:
-			add("dc%d:1", 1+2*r.Intn(9))
+			add("dc%d:1", 1001+2*r.Intn(9))
 			return 2
 		default:
-			add("wz%d", 1+2*r.Intn(9))
+			add("wz%d", 1001+2*r.Intn(9))
 			return 1
 		}
 	}
@@ -316,10 +325,10 @@ func gen(r *vh.Rand) string {
 		for i := 0; i < pre; i++ {
 			switch r.Intn(3) {
 			case 0:
-				add("dc%d:1", 1+2*r.Intn(9))
+				add("dc%d:1", 1001+2*r.Intn(9))
 				used += 2
 			case 1:
-				add("wz%d", 1+2*r.Intn(9))
+				add("wz%d", 1001+2*r.Intn(9))
 				used++
 			default:
 				add("st")
@@ -331,11 +340,11 @@ func gen(r *vh.Rand) string {
 		for i := r.Range(1, 4); i > 0; i-- {
 			switch r.Intn(3) {
 			case 0:
-				add("dc%d:%d", 1+2*r.Intn(9), r.Intn(2))
+				add("dc%d:%d", 1001+2*r.Intn(9), r.Intn(2))
 			case 1:
 				add("p1")
 			default:
-				add("wz3")
+				add("wz1003")
 			}
 			add("o")
 		}
@@ -349,7 +358,7 @@ func gen(r *vh.Rand) string {
 		if r.Bool() {
 			add("stall")
 			add("p%d", r.Range(1, 50))
-			add("dc5:1")
+			add("dc1005:1")
 			add("o")
 		}
 	case k < 7:
